@@ -25,7 +25,10 @@ def mcs(tier):
 
 
 def fams(tier):
-    return cachefam.reader_families("memory") + cachefam.reader_families("file")
+    # plus, per backend, one family in which stores arrive at a full cache and make room by eviction first
+    # (what the store then holds, and what later reads deliver, must still be the whole body)
+    return (cachefam.reader_families("memory") + cachefam.reader_families("file")
+            + [cachefam.evict_families(be)[1] for be in ("memory", "file")])
 
 
 def traps(tier):
